@@ -197,10 +197,34 @@ def run(ctx):
     # which the tables do not promise for any item (SHORT-NAME of some element types is younger than the type)
     consts = []
     judged = [(q, cw.blocks[q[0]]['term']['args'][1]) for q in calls(cw, r'AutosarVersion>?::compatible$') if len(cw.blocks[q[0]]['term']['args']) > 1] + [(q, o) for q, o in ands if o is not None]
+    from flow import defs_of as _defs
+
+    def const_origins(o, seen, depth=10):
+        """constants a mask operand can come from; the start value of an accumulator (a local that is also assigned `local & x`) is not one"""
+        if not is_local_op(o):
+            return [o.get('i') or str(o.get('v', o))]
+        l = o['l']
+        if o['p'] or l in seen or depth == 0:
+            return []
+        seen.add(l)
+        ds = _defs(cw, l)
+        accumulates = any(st['k'] == 'assign' and st['rv']['k'] == 'bin' and st['rv']['op'] == 'BitAnd' and any(is_local_op(x) and x['l'] == l and not x['p'] for x in (st['rv']['a'], st['rv']['b'])) for _, st in ds)
+        out = []
+        for _, st in ds:
+            if st['k'] == 'assign' and st['rv']['k'] in ('use', 'cast'):
+                if not is_local_op(st['rv']['o']):
+                    if not accumulates:
+                        out.append(st['rv']['o'].get('i') or str(st['rv']['o'].get('v', st['rv']['o'])))
+                else:
+                    out += const_origins(st['rv']['o'], seen, depth - 1)
+            elif st['k'] == 'assign' and st['rv']['k'] == 'bin' and st['rv']['op'] == 'BitAnd':
+                for x in (st['rv']['a'], st['rv']['b']):
+                    if is_local_op(x):
+                        out += const_origins(x, seen, depth - 1)
+        return out
     for q, o in judged:
-        for og in origins(cw, o):
-            if og[0] == 'const':
-                consts.append((q, og[1].get('i') or str(og[1])))
+        for c_ in const_origins(o, set()):
+            consts.append((q, c_))
     C.check(not consts, 'C17-SIB-mask', 'walk|every-mask-comes-from-the-specification', 'the compatibility walk judges or accumulates a CONSTANT version mask (%s) instead of the mask the specification gives for the item: an item that the target version does not have is reported compatible, set_version succeeds and the file no longer loads strictly' % ', '.join(sorted({c for _, c in consts})),
             cw.where(consts[0][0]) if consts else '', sample={'fn': 'check_version_compatibility', 'masks_judged_or_accumulated': len(judged), 'constant_masks': len(consts)})
     C.floor('C17-SIB-mask.judged-masks', len(judged), 6)
